@@ -16,7 +16,7 @@ DST = "/verif/seeded"
 EXTRA = {  # other checks worth running for a seed besides its own property
     "C01": ["C05", "C14", "C04"], "C05": ["C01", "C14"], "C14": ["C01", "C02"], "C04": ["C01", "C05"], "C13": ["C02", "C10", "C06"],
     "C06": ["C04"], "C17": ["C04"], "C08": ["C16"], "C16": ["C08"], "C09": ["C16"], "C18": [], "C19": ["C02"],
-    "C02": ["C03", "C14"], "C03": ["C02"], "C07": ["C15", "C02"], "C15": ["C07", "C02"], "C12": ["C15"], "C11": ["C02"], "C10": ["C13"],
+    "C02": ["C03", "C14"], "C03": ["C02"], "C07": ["C15", "C02"], "C15": ["C07", "C02"], "C12": ["C15", "C02"], "C11": ["C02"], "C10": ["C13"],
 }
 
 
